@@ -279,8 +279,8 @@ PROPS = {
         "run_files": ["Run/CaseConn.v", "Run/CaseC09.v"],
         "imports": ["Lib.Bytes", "Codec.Desc", "Conn.Types", "Conn.Prog", "Conn.Sem1", "Run.CaseConn"],
         "case_type": "conn_case",
-        "checkers": {"BASE": "check_c04b", "MAL": "check_c04b", "C06": "check_c04b"},
-        "harness": [{"bin": "conn", "env": {"VERIF_FAMILIES": "BASE,MAL,C06"}}, {"bin": "codec", "families": ["DEC"], "case_type": "c09case", "imports": ["Lib.Bytes", "Codec.VarInt", "Codec.Desc", "Gen.PacketsGen", "Run.CaseC09"], "checkers": {"DEC": "check_c04_dec"}, "shard": 250}],
+        "checkers": {"BASE": "check_c04b", "MAL": "check_c04b", "C06": "check_c04b", "C01": "check_c04b"},
+        "harness": [{"bin": "conn", "env": {"VERIF_FAMILIES": "BASE,MAL,C06,C01"}}, {"bin": "codec", "families": ["DEC"], "case_type": "c09case", "imports": ["Lib.Bytes", "Codec.VarInt", "Codec.Desc", "Gen.PacketsGen", "Run.CaseC09"], "checkers": {"DEC": "check_c04_dec"}, "shard": 250}],
         "shard": 40,
         "quick_scale": 1, "thorough_scale": 8, "search_factor": 4,
         "ties": ["conn binary: real Connection::listen on a scripted transport/client/adapters in a paused runtime vs Conn.Sem1.run1 (sends, calls, outcome, virtual ms)",
